@@ -19,6 +19,10 @@ PROP = {
          "modes": ["monitor"], "cases": {"quick": 220, "thorough": 5500}, "gen_args": ["typed", "valid"]},
         {"name": "typed-bare", "crate": "core", "bin": "sv-c10", "machine": "c10", "min_shard": 20,
          "modes": ["monitor"], "cases": {"quick": 88, "thorough": 2200}, "gen_args": ["typedbare", "valid"]},
+        # one byte of the Recon text of a body / key / value corrupted, every length intact: the damaged frame gives
+        # one outcome, every other frame is decoded exactly (every single split + multi-splits)
+        {"name": "typed-resync", "crate": "core", "bin": "sv-c10", "machine": "c10", "min_shard": 20,
+         "modes": ["monitor"], "cases": {"quick": 220, "thorough": 5500}, "gen_args": ["typed", "resync"]},
         {"name": "typed-mutate", "crate": "core", "bin": "sv-c10", "machine": "c10", "min_shard": 20,
          "modes": ["monitor"], "cases": {"quick": 330, "thorough": 8250}, "gen_args": ["typed", "mutate"]},
     ],
